@@ -206,11 +206,21 @@ def check(ctx):
              'candidates must be a snapshot of all pending patterns; iterates %s' % it)
     cancels = [(n, c) for n, c in ga.find(lambda n: method_call(n, 'cancel')) if norm(_receiver(ga, n, c)).startswith(PAT + '[')]
     dels = [n for n in ga.nodes if n.kind == 'stmt' and isinstance(n.ast, ast.Delete) and norm(n.ast.targets[0]).startswith(PAT + '[')]
-    ctx.need(len(dels) == 1, '_check_for_answers: delete of the matched entry not found')
-    lm = norm(dels[0].ast.targets[0].slice)
-    okc = len(cancels) == 1 and norm(_receiver(ga, *cancels[0]).slice) == lm and _runs_before(ga, cancels[0][0], cancels[0][1], dels[0])
+    # `table.pop(k).cancel()` as one statement takes the entry out and cancels its timer: the same entry by construction
+    popc = [n for n in ga.nodes if n.kind == 'stmt' and isinstance(n.ast, ast.Expr) and method_call(n.ast.value, 'cancel') and method_call(n.ast.value.func.value, 'pop') and
+            norm(n.ast.value.func.value.func.value) == PAT and len(n.ast.value.func.value.args) == 1]
+    if not dels and len(popc) == 1 and not cancels:
+        dels = popc
+        lm = norm(popc[0].ast.value.func.value.args[0])
+        cancels = [(popc[0], popc[0].ast.value)]
+        okc = True
+        pops = []
+    else:
+        ctx.need(len(dels) == 1, '_check_for_answers: delete of the matched entry not found')
+        lm = norm(dels[0].ast.targets[0].slice)
+        okc = len(cancels) == 1 and norm(_receiver(ga, *cancels[0]).slice) == lm and _runs_before(ga, cancels[0][0], cancels[0][1], dels[0])
+        pops = [norm(c)[:60] for c in walk_own(ca.node) if method_call(c, 'pop') and norm(c.func.value) == PAT]
     ctx.inst('R3', ca, 'cancel-and-delete-same-entry', okc, 'the deleted entry %s must have been cancelled first' % lm)
-    pops = [norm(c)[:60] for c in walk_own(ca.node) if method_call(c, 'pop') and norm(c.func.value) == PAT]
     ctx.inst('R3', ca, 'only-the-longest-match-is-removed', not pops and len(dels) == 1,
              'an incoming packet releases exactly one entry, the longest matching pattern found by comparing all candidates; a short cut that pops another key '
              '(a remembered length, the first match) cancels the wrong request: %s' % (pops or 'none'))
@@ -235,7 +245,12 @@ def check(ctx):
                 txt = re.sub(r'\b%s\b' % re.escape(k_), v_, txt)
         return txt.replace('[:', '[0:')
     want_pref = {fact_key('%s == %s[0:len(%s)]' % (pv, dvar, pv), True)[0], fact_key('%s[0:len(%s)] == %s' % (dvar, pv, pv), True)[0]}
-    pref_ok = any(k_[1] is True and (k_[0] in want_pref or _through(k_[0]) in want_pref or fact_key(_through(k_[0]), True)[0] in want_pref) for k_ in keys)
+    def _fk(t_):
+        try:
+            return fact_key(t_, True)[0]
+        except Exception:
+            return t_
+    pref_ok = any(k_[1] is True and (k_[0] in want_pref or _through(k_[0]) in want_pref or _fk(_through(k_[0])) in want_pref) for k_ in keys)
     mtxt = mtxt.replace('[:', '[0:')
     ctx.inst('R3', ca, 'match-is-prefix', pref_ok and mtxt in ('%s[0:len(%s)]' % (dvar, pv), pv),
              'a candidate matches iff it equals the leading len(p) items of the packet tuple; guards %s, kept value %s' % (sorted(keys), mtxt))
@@ -289,7 +304,9 @@ def check(ctx):
                 tg = st.targets[0] if isinstance(st, ast.Assign) and isinstance(st.targets[0], ast.Name) else None
                 cs = [n for n, c in gf.find(lambda q: method_call(q, 'cancel'))
                       if tg is not None and norm(c.func.value) == tg.id and any(d is sn[0] for d in gf.reaching_defs(n, tg.id)) and _runs_before_or_after(gf, sn[0], n, tg.id)]
-                ctx.inst('R4', f, 'pop-cancels', len(cs) >= 1, 'a pending pattern taken out of the table with pop() must have its timer cancelled')
+                # `table.pop(k).cancel()`: cancelled in the same expression
+                direct = isinstance(st, ast.Expr) and method_call(st.value, 'cancel') and method_call(st.value.func.value, 'pop') and norm(st.value.func.value.func.value) == PAT
+                ctx.inst('R4', f, 'pop-cancels', len(cs) >= 1 or bool(direct), 'a pending pattern taken out of the table with pop() must have its timer cancelled')
                 continue
             if site[0] == 'del':
                 k = norm(st.targets[0].slice)
